@@ -82,6 +82,10 @@ pub fn alphabet_c04() -> Vec<Op> {
         v.push(Op::Enc { label: l, outcome: Outcome::TooSmall, ext: false });
         v.push(Op::Enc { label: l, outcome: Outcome::Fragments, ext: false });
     }
+    for l in [0u8, 2] {
+        // encap_ext that fragments (label memory, CRC and re-use substitution on the extension path)
+        v.push(Op::Enc { label: l, outcome: Outcome::Fragments, ext: true });
+    }
     for l in [0u8, 2, 4] {
         v.push(Op::Enc { label: l, outcome: Outcome::Fits, ext: true });
         v.push(Op::Enc { label: l, outcome: Outcome::TooLong, ext: false });
@@ -123,6 +127,8 @@ pub struct Exec {
     pub substitutions: u64,
     pub deliveries: u64,
     pub failed_calls: u64,
+    /// packets the lock-step receiver rejected
+    pub rx_errors: u64,
     /// packets produced (for receiver-only stream mutation)
     pub record: Option<Vec<Vec<u8>>>,
 }
@@ -149,6 +155,7 @@ impl Exec {
             substitutions: 0,
             deliveries: 0,
             failed_calls: 0,
+            rx_errors: 0,
             record: None,
         }
     }
@@ -168,25 +175,25 @@ impl Exec {
                 self.prev_intended = None;
                 true
             }
+            // configuration calls do NOT end a run of re-use packets on the wire: the property bounds the
+            // packets emitted before one carrying the full label (literal reading; holds on the real code
+            // because enabling forgets the remembered label)
             Op::Disable => {
                 self.enc.disable_re_use_label();
                 self.enabled = false;
                 self.max_n = 0;
-                self.consecutive = 0;
                 true
             }
             Op::Enable => {
                 self.enc.enable_re_use_label();
                 self.enabled = true;
                 self.max_n = 0;
-                self.consecutive = 0;
                 true
             }
             Op::EnableMax(n) => {
                 self.enc.enable_re_use_label_with_max_consecutive(*n);
                 self.enabled = true;
                 self.max_n = *n;
-                self.consecutive = 0;
                 true
             }
             Op::Cont => {
@@ -269,7 +276,11 @@ impl Exec {
                     }
                     // the packet refers to the same label: `carried` is unchanged when it was right
                 } else {
-                    self.consecutive = 0;
+                    // only a packet that carries a full label (or broadcast) ends a run of substitutions; an
+                    // explicit re-use label passed by the caller neither counts nor ends it
+                    if l != Label::ReUse {
+                        self.consecutive = 0;
+                    }
                     match l {
                         Label::Broadcast => self.carried = None,
                         Label::ReUse => {}
@@ -351,6 +362,7 @@ impl Exec {
                 }
             }
             Ok(Err(_)) => {
+                self.rx_errors += 1;
                 if p.must_deliver && c04 {
                     rep.violation("C04", format!("not-delivered:{}", kind.name()), || format!("history [{}]: packet {} of a PDU sent with label {:?} was rejected: {}", hist(), hex_short(pkt, 32), p.intended.map(|l| label_str(&l)), dec_res_str(&res)), replay);
                 }
